@@ -80,3 +80,113 @@ pub fn permutations(n: usize) -> Vec<Vec<usize>> {
     rec(&mut vec![], &mut vec![false; n], n, &mut out);
     out
 }
+
+/// All simple graphs on n nodes for every n in `ns`, addressed by one index.
+#[derive(Clone, Debug)]
+pub struct SimpleFam {
+    pub ns: Vec<usize>,
+    pub directed: bool,
+    pub loops: bool,
+}
+impl SimpleFam {
+    pub fn new(ns: impl IntoIterator<Item = usize>, directed: bool, loops: bool) -> Self {
+        SimpleFam { ns: ns.into_iter().collect(), directed, loops }
+    }
+    pub fn count(&self) -> u64 {
+        self.ns.iter().map(|&n| 1u64 << pair_slots(n, self.directed, self.loops).len()).sum()
+    }
+    pub fn get(&self, mut idx: u64) -> (usize, Vec<E>) {
+        for &n in &self.ns {
+            let slots = pair_slots(n, self.directed, self.loops);
+            let c = 1u64 << slots.len();
+            if idx < c {
+                return (n, mask_edges(&slots, idx));
+            }
+            idx -= c;
+        }
+        panic!("index out of family")
+    }
+    pub fn bounds(&self) -> String {
+        format!("every {} simple graph{} on n in {:?} nodes (adjacency bitmask)", if self.directed { "directed" } else { "undirected" }, if self.loops { " with self-loops" } else { " without self-loops" }, self.ns)
+    }
+}
+
+/// All ordered edge lists (multigraphs: parallel edges and self-loops) of length <= m on n nodes.
+#[derive(Clone, Debug)]
+pub struct ListFam {
+    pub n: usize,
+    pub m: u32,
+    pub directed: bool,
+    pub loops: bool,
+}
+impl ListFam {
+    pub fn new(n: usize, m: u32, directed: bool) -> Self {
+        ListFam { n, m, directed, loops: true }
+    }
+    pub fn slots(&self) -> Vec<E> {
+        pair_slots(self.n, self.directed, self.loops)
+    }
+    pub fn count(&self) -> u64 {
+        lists_upto_count(self.slots().len() as u64, self.m)
+    }
+    pub fn get(&self, idx: u64) -> (usize, Vec<E>) {
+        let s = self.slots();
+        (self.n, list_upto(s.len() as u64, self.m, idx).into_iter().map(|i| s[i as usize]).collect())
+    }
+    pub fn bounds(&self) -> String {
+        format!("every ordered edge list of length <= {} on {} nodes ({}; parallel edges{}; insertion order matters)", self.m, self.n, if self.directed { "directed" } else { "undirected" }, if self.loops { " and self-loops" } else { ", no self-loops" })
+    }
+}
+
+/// Weighted simple graphs: every slot is absent or carries one of `k` weights.
+#[derive(Clone, Debug)]
+pub struct WSimpleFam {
+    pub n: usize,
+    pub directed: bool,
+    pub loops: bool,
+    pub k: u64,
+    /// keep only graphs with at most this many edges (None = all)
+    pub max_edges: Option<usize>,
+}
+impl WSimpleFam {
+    pub fn slots(&self) -> Vec<E> {
+        pair_slots(self.n, self.directed, self.loops)
+    }
+    pub fn count(&self) -> u64 {
+        pow(self.k + 1, self.slots().len() as u32)
+    }
+    /// (edges with weight index 0..k) or None if filtered out by max_edges
+    pub fn get(&self, idx: u64) -> Option<Vec<(usize, usize, usize)>> {
+        let s = self.slots();
+        let d = digits(idx, self.k + 1, s.len());
+        let v: Vec<(usize, usize, usize)> = d.iter().enumerate().filter(|(_, &x)| x > 0).map(|(i, &x)| (s[i].0, s[i].1, (x - 1) as usize)).collect();
+        if let Some(m) = self.max_edges {
+            if v.len() > m {
+                return None;
+            }
+        }
+        Some(v)
+    }
+}
+
+/// Weighted ordered edge lists: symbols are (slot, weight index).
+#[derive(Clone, Debug)]
+pub struct WListFam {
+    pub n: usize,
+    pub m: u32,
+    pub directed: bool,
+    pub loops: bool,
+    pub k: u64,
+}
+impl WListFam {
+    pub fn slots(&self) -> Vec<E> {
+        pair_slots(self.n, self.directed, self.loops)
+    }
+    pub fn count(&self) -> u64 {
+        lists_upto_count(self.slots().len() as u64 * self.k, self.m)
+    }
+    pub fn get(&self, idx: u64) -> Vec<(usize, usize, usize)> {
+        let s = self.slots();
+        list_upto(s.len() as u64 * self.k, self.m, idx).into_iter().map(|sym| { let (si, wi) = ((sym / self.k) as usize, (sym % self.k) as usize); (s[si].0, s[si].1, wi) }).collect()
+    }
+}
